@@ -86,6 +86,7 @@ pub enum Ty {
     Res(Box<Ty>, Box<Ty>),
     Arr(Box<Ty>),
     Snap(Box<Ty>),
+    Boxed(Box<Ty>),
 }
 impl Ty {
     pub fn unit() -> Ty {
@@ -180,6 +181,8 @@ pub enum Arg {
 #[derive(Clone, PartialEq, Eq, Hash, Debug)]
 pub enum Stmt {
     Let(usize, Ty, Expr),
+    /// `let (x1, .., xn) = e;` / `let S { m0: x1, .. } = e;` (the type is the tuple / struct type)
+    LetTup(Vec<usize>, Ty, Expr),
     Expr(Expr),
 }
 
@@ -225,6 +228,37 @@ pub enum Expr {
     ArrAt(usize, Box<Expr>),
     Snap(Box<Expr>),
     Desnap(Box<Expr>),
+    /// `BoxTrait::new(e)` / `e.unbox()`
+    BoxNew(Box<Expr>),
+    Unbox(Box<Expr>),
+    /// `a.wrapping_add(b)`, `overflowing_*`, `checked_*`, `saturating_*` on integers
+    Arith(ArithK, Binop, Ty, Box<Expr>, Box<Expr>),
+}
+
+#[derive(Clone, Copy, PartialEq, Eq, Hash, Debug)]
+pub enum ArithK {
+    Wrapping,
+    Overflowing,
+    Checked,
+    Saturating,
+}
+impl ArithK {
+    pub fn name(self) -> &'static str {
+        match self {
+            ArithK::Wrapping => "wrapping",
+            ArithK::Overflowing => "overflowing",
+            ArithK::Checked => "checked",
+            ArithK::Saturating => "saturating",
+        }
+    }
+    pub fn coq(self) -> &'static str {
+        match self {
+            ArithK::Wrapping => "AWrapping",
+            ArithK::Overflowing => "AOverflowing",
+            ArithK::Checked => "AChecked",
+            ArithK::Saturating => "ASaturating",
+        }
+    }
 }
 
 #[derive(Clone, PartialEq, Eq, Hash, Debug)]
@@ -235,6 +269,8 @@ pub struct Param {
 }
 #[derive(Clone, PartialEq, Eq, Hash, Debug)]
 pub struct FnDecl {
+    /// `#[inline(never)]` (Some(false)) / `#[inline(always)]` (Some(true))
+    pub inline: Option<bool>,
     pub params: Vec<Param>,
     pub ret: Ty,
     pub body: Expr,
@@ -290,6 +326,7 @@ impl Program {
             Ty::Res(t, e) => format!("Result<{}, {}>", self.ty_cairo(t), self.ty_cairo(e)),
             Ty::Arr(t) => format!("Array<{}>", self.ty_cairo(t)),
             Ty::Snap(t) => format!("@{}", self.ty_cairo(t)),
+            Ty::Boxed(t) => format!("Box<{}>", self.ty_cairo(t)),
         }
     }
     /// members of a tuple / struct type
@@ -341,11 +378,31 @@ impl Program {
                     )
                 })
                 .collect();
+            match f.inline {
+                Some(true) => s.push_str("#[inline(always)]\n"),
+                Some(false) => s.push_str("#[inline(never)]\n"),
+                None => {}
+            }
             writeln!(s, "fn {}({}) -> {} {{", self.fn_name(i), ps.join(", "), self.ty_cairo(&f.ret)).unwrap();
             self.block_body(&mut s, &f.body, 1);
             writeln!(s, "}}").unwrap();
         }
         s
+    }
+
+    fn let_tup_pattern(&self, xs: &[usize], t: &Ty) -> String {
+        match t {
+            Ty::Struct(k) => format!(
+                "let {} {{ {} }} = ",
+                self.struct_name(*k),
+                xs.iter().enumerate().map(|(i, x)| format!("m{}: mut v{}", i, x)).collect::<Vec<_>>().join(", ")
+            ),
+            _ => format!(
+                "let ({}{}) = ",
+                xs.iter().map(|x| format!("mut v{}", x)).collect::<Vec<_>>().join(", "),
+                if xs.len() == 1 { "," } else { "" }
+            ),
+        }
     }
 
     fn ind(s: &mut String, d: usize) {
@@ -363,6 +420,11 @@ impl Program {
                     match st {
                         Stmt::Let(x, t, e) => {
                             write!(s, "let mut v{}: {} = ", x, self.ty_cairo(t)).unwrap();
+                            self.expr_top(s, e, d);
+                            s.push_str(";\n");
+                        }
+                        Stmt::LetTup(xs, t, e) => {
+                            s.push_str(&self.let_tup_pattern(xs, t));
                             self.expr_top(s, e, d);
                             s.push_str(";\n");
                         }
@@ -697,6 +759,31 @@ impl Program {
                 self.expr(s, a, d);
                 s.push(')');
             }
+            Expr::BoxNew(a) => {
+                s.push_str("BoxTrait::new(");
+                self.expr(s, a, d);
+                s.push(')');
+            }
+            Expr::Unbox(a) => {
+                s.push('(');
+                self.expr(s, a, d);
+                s.push_str(").unbox()");
+            }
+            Expr::Arith(k, o, t, a, b) => {
+                let (tr, m) = match o {
+                    Binop::Add => ("Add", "add"),
+                    Binop::Sub => ("Sub", "sub"),
+                    _ => ("Mul", "mul"),
+                };
+                let kn = k.name();
+                let mut cap = kn.to_string();
+                cap[..1].make_ascii_uppercase();
+                write!(s, "core::num::traits::{}{}::<{}>::{}_{}(", cap, tr, self.ty_cairo(t), kn, m).unwrap();
+                self.expr(s, a, d);
+                s.push_str(", ");
+                self.expr(s, b, d);
+                s.push(')');
+            }
         }
     }
 
@@ -712,6 +799,10 @@ impl Program {
                         match st {
                             Stmt::Let(x, t, e) => {
                                 write!(s, "let mut v{}: {} = ", x, self.ty_cairo(t)).unwrap();
+                                self.expr_top(s, e, d);
+                            }
+                            Stmt::LetTup(xs, t, e) => {
+                                s.push_str(&self.let_tup_pattern(xs, t));
                                 self.expr_top(s, e, d);
                             }
                             Stmt::Expr(e) => self.expr_top(s, e, d),
@@ -785,6 +876,7 @@ impl Program {
             ),
             Ty::Arr(t) => format!("(TArr {})", self.ty_coq(t)),
             Ty::Snap(t) => format!("(TSnap {})", self.ty_coq(t)),
+            Ty::Boxed(t) => format!("(TBox {})", self.ty_coq(t)),
         }
     }
 
@@ -834,6 +926,12 @@ impl Program {
                 for st in stmts.iter().rev() {
                     acc = match st {
                         Stmt::Let(x, _, e) => format!("(ELet {} {} {})", x, c(e), acc),
+                        Stmt::LetTup(xs, _, e) => format!(
+                            "(ELetTup [{}] {} {})",
+                            xs.iter().map(|x| format!("{}%nat", x)).collect::<Vec<_>>().join("; "),
+                            c(e),
+                            acc
+                        ),
                         Stmt::Expr(e) => format!("(ESeq {} {})", c(e), acc),
                     };
                 }
@@ -873,6 +971,11 @@ impl Program {
             Expr::ArrAt(x, i) => format!("(EArrAt {} {})", x, c(i)),
             Expr::Snap(a) => format!("(ESnap {})", c(a)),
             Expr::Desnap(a) => format!("(EDesnap {})", c(a)),
+            Expr::BoxNew(a) => format!("(EBox {})", c(a)),
+            Expr::Unbox(a) => format!("(EUnbox {})", c(a)),
+            Expr::Arith(k, o, t, a, b) => {
+                format!("(EArith {} {} {} {} {})", k.coq(), o.coq(), self.ty_coq(t), c(a), c(b))
+            }
         }
     }
 
